@@ -256,6 +256,59 @@ func c16arbitrator(c *Ctx) {
 		}
 	}
 
+	// a job leaves the waiting collection only as a recorded passed job
+	r.Rule("PATH: in arbitratorImpl.updatePassedJob the removal from waitingCollection is not reachable without markJobPassedArbitration (a job that leaves the waiting collection unrecorded counts against no budget)")
+	if fn := c.Fn(arbitratorPkg, "arbitratorImpl", "updatePassedJob"); fn != nil {
+		var mark ssa.Instruction
+		var dels []ssa.Instruction
+		for _, cl := range an.Calls(fn, false) {
+			if an.ShortCallee(cl.Common()) == "markJobPassedArbitration" {
+				mark = cl
+			}
+			if an.IsBuiltinCall(cl.Value(), "delete") && strings.HasSuffix(an.Path(cl.Common().Args[0]), ".waitingCollection") {
+				dels = append(dels, cl)
+			}
+		}
+		ok := mark != nil && len(dels) > 0
+		for _, d := range dels {
+			if !mustPass(mark, d) {
+				ok = false
+			}
+		}
+		r.Check(ok, "PATH", fkey(fn)+"/leave-waiting<=recorded", c.Pos(fn.Pos()), "removed from waiting only after being recorded as passed", "the job can be removed from waitingCollection without markJobPassedArbitration: it is then neither waiting nor counted by the limit filters")
+	}
+	// the duplicate-job lookup tries both indexes
+	r.Rule("PATH: in filter.existingPodMigrationJob, as long as nothing was found, no return is reachable without each of the index lookups (by pod UID and by namespace/name): a live job that references the pod by name only (no UID yet) must still be seen")
+	if fn := c.Fn(arbitratorPkg, "filter", "existingPodMigrationJob"); fn != nil {
+		var lookups []ssa.CallInstruction
+		for _, cl := range an.Calls(fn, false) {
+			if an.ShortCallee(cl.Common()) == "forEachAvailableMigrationJobs" {
+				lookups = append(lookups, cl)
+			}
+		}
+		f := an.Facts{}
+		for _, b := range fn.Blocks {
+			for _, in := range b.Instrs {
+				if u, ok := in.(*ssa.UnOp); ok && u.Op == token.MUL {
+					if a, ok := u.X.(*ssa.Alloc); ok {
+						if bt, ok := a.Type().(*types.Pointer).Elem().Underlying().(*types.Basic); ok && bt.Kind() == types.Bool {
+							f[u] = an.False // nothing found so far
+						}
+					}
+				}
+			}
+		}
+		okAll := len(lookups) >= 2 && len(f) >= 1
+		for _, l := range lookups {
+			target := l
+			reach := an.Explore(fn, nil, f, func(in ssa.Instruction) bool { return in == ssa.Instruction(target) })
+			if len(reach.Returns()) > 0 {
+				okAll = false
+			}
+		}
+		r.Check(okAll, "PATH", fkey(fn)+"/both-indexes", c.Pos(fn.Pos()), sprintf("%d index lookups are all tried before 'no job' is answered", len(lookups)), sprintf("'no live job' can be answered without trying every index (%d lookups, %d found-flag reads): a job that references the pod by name only is missed, the pod gets a second job and is not counted against the per-node limit", len(lookups), len(f)))
+	}
+
 	// limit comparisons
 	r.Rule("COMPARE(limits): in each limit filter the refusal test is 'count >= limit' (not '>') with the limit derived from the matching argument (MaxMigratingGlobally / PerNode / PerNamespace; GetMaxMigrating / GetMaxUnavailable for workloads); once that test holds every reachable return is false; the gate-skip shortcut tests the filter's own gate constant")
 	for _, lf := range []struct {
